@@ -204,7 +204,7 @@ Definition emit_call (inj : injector) (c : call) (ins : instr) (ig : igst) (g : 
     let line := "DEF " ++ join ", " lhs ++ " := " ++ fn ++ "(" ++ args ++ (if c_varargs c then "..." else "") ++ ")" in
     if c_err c then
       let '(z, g2) := zero_value g1 (i_out inj) in
-      let ret := "  RET " ++ z ++ (if i_cleanup inj then ", nil" else "") ++ ", err" in
+      let ret := "  RET " ++ z ++ (if i_cleanup inj then ", nil" else "") ++ ", " ++ ig_err ig2 in
       (lapp [line; "IF " ++ ig_err ig2 ++ " != nil"] (snoc (map (fun c => "  EXPR " ++ cleanup_call (ig_cleanups ig2) c) unwind) ret), ig2, g2)
     else ([line], ig2, g1)
   | 1 =>
